@@ -336,7 +336,8 @@ def run_item(item):
         return run_real(seed)
     d, opts, meta, mode, size = make_case(seed)
     data = d.text().encode('utf-8')
-    res = runner.run_delta(gen.to_args(opts), data, mode=mode, pty_size=size)
+    traced = seed % 8 == 0
+    res = runner.run_delta(gen.to_args(opts), data, mode=mode, pty_size=size, trace=traced)
     c = crash_outcome(res, ID)
     if c is not None:
         return c
@@ -345,6 +346,8 @@ def run_item(item):
     ok, what, exp, obs, counters = check_output(d, meta, res.out)
     sets = {'option_classes': meta['classes'], 'section_kinds': [s.kind for s in d.sections], 'mode': [mode],
             'format': [d.fmt]}
+    if traced:
+        sets['state_transitions'] = engine.transitions(res.trace)
     if not ok:
         key = 'c01:' + what.split(' (')[0][:60]
         return violated(key, what, exp, obs, run=res, counters=counters, sets=sets)
@@ -360,4 +363,10 @@ def floors(ctx, agg):
         p.append('fewer than 1000 hunk lines matched')
     if len(agg.sets.get('section_kinds', ())) < 8:
         p.append('fewer than 8 section kinds exercised')
+    need = {'HunkMinus>HunkPlus', 'HunkPlus>HunkZero', 'HunkPlus>HunkMinus', 'HunkMinus>HunkZero', 'HunkZero>HunkHeader', 'HunkPlus>DiffHeader',
+            'HunkMinus>DiffHeader', 'HunkZero>DiffHeader', 'HunkPlus>HunkHeader', 'HunkMinus>HunkHeader', 'HunkPlus>End', 'HunkMinus>End',
+            'DiffHeader>DiffHeader', 'DiffHeader>HunkHeader'}
+    missing = need - set(agg.sets.get('state_transitions', ()))
+    if missing:
+        p.append('state-machine transitions not driven by the workload (hook trace): %s' % sorted(missing))
     return p
